@@ -336,3 +336,25 @@ contract(A + "preserve_context.restore_eliot_context", props=["C06"], types={"ar
                  {"cls": "BaseException", "ensures": [("the-function's-own-exception-passes-through", "not old(is_locked(called)) and CTX[me] == old(CTX[me])", ["C06"])]}])
 specfun("is_locked", ["l"], "typed(l.locked_flag, 'bool')")
 specfun("last_user_call_returned", ["f", "r"], "True")
+
+# ------------------------------------------------------------------------------------------------ log_call (C18)
+contract(A + "log_call.logging_wrapper", props=["C18"], types={"args": "tuple", "kwargs": "dict"}, returns="Any",
+         free={"wrapped_function": "role:UserCode", "action_type": "Any", "include_args": "Opt[list[str]]", "include_result": "bool"},
+         ghosts={"RET": "Any", "EXC": "Any", "NCALLS": "int", "BOUND": "Any", "STARTF": "Any", "ADDED": "bool", "CARGS": "seq", "CKW": "Any", "INSIDE": "Any"},
+         ghost_defaults={"NCALLS": "0", "ADDED": "False"},
+         after={"UserCode.__call__#0": [("RET", "box(result)"), ("NCALLS", "NCALLS + 1"), ("CARGS", "old(LASTARGS)"), ("CKW", "old(LASTKW)"), ("INSIDE", "old(CTX[me])")],
+                "Action._start#0": [("STARTF", "box(fields)")],
+                "Action.addSuccessFields#0": [("ADDED", "True")]},
+         after_raise={"UserCode.__call__#0": [("EXC", "box(exc)"), ("NCALLS", "NCALLS + 1"), ("CARGS", "old(LASTARGS)"), ("CKW", "old(LASTKW)"), ("INSIDE", "old(CTX[me])")]},
+         requires=[("current-ok", "cur_ok()"),
+                   ("include_args-were-checked-against-the-signature-at-decoration-time",
+                    "implies(include_args is not None, forall(lambda k: implies(contains(seq(typed(include_args, 'list')), k), contains(params_of(wrapped_function), k)), 'val'))")],
+         modifies=["*"],
+         ensures=[("same-return-value-whether-or-not-the-result-is-logged", "box(result) == RET and NCALLS == 1", ["C18"]),
+                  ("called-with-the-very-same-arguments", "CARGS == old(seq(args)) and CKW == old(dict_of(kwargs))", ["C18"]),
+                  ("result-logged-iff-include_result", "ADDED == include_result", ["C18"]),
+                  ("context-restored", "CTX[me] == old(CTX[me])", ["C04"])],
+         raises=[{"cls": "BaseException",
+                  "ensures": [("either-the-call-did-not-bind-and-the-function-never-ran-or-its-own-exception-object-propagates",
+                               "(NCALLS == 0 and isinst(exc, 'TypeError')) or (NCALLS == 1 and box(exc) == EXC)", ["C18"]),
+                              ("context-restored", "CTX[me] == old(CTX[me])", ["C04"])]}])
